@@ -95,19 +95,20 @@ class Cx:
             )
         self.instances.append(inst)
 
-    def fa(self, body, kill_on_mut_calls=False):
-        key = (body.facts.config, body.path, kill_on_mut_calls)
+    def fa(self, body, kill_on_mut_calls=False, kill_fields=True):
+        key = (body.facts.config, body.path, kill_on_mut_calls, kill_fields)
         a = self._fa.get(key)
         if a is None:
-            a = FactsAnalysis(body, kill_on_mut_calls)
+            a = FactsAnalysis(body, kill_on_mut_calls, kill_fields)
             self._fa[key] = a
         return a
 
     # -- T1 GUARD ----------------------------------------------------------------------------------
-    def guard(self, inst, body, sinks, dnf, construct=None, why=""):
+    def guard(self, inst, body, sinks, dnf, construct=None, why="", checked_before=False):
         """every sink (Loc, label) requires the DNF (list of conjunctions of regex literals) to be
-        established on every path reaching it"""
-        fa = self.fa(body)
+        established on every path reaching it.  checked_before=True: field writes do not invalidate
+        facts (the sink follows the state update the guard authorised)"""
+        fa = self.fa(body, kill_fields=not checked_before)
         n = 0
         for loc, label in sinks:
             n += 1
@@ -368,3 +369,23 @@ def _sum(e, consts, sign):
         return _sum(e[2], consts, sign) + _sum(e[3], consts, -sign)
     s = acnf(e, consts)
     return [s if sign > 0 else "-" + s]
+
+
+def return_alts(cx, body, want):
+    """alternative fact-sets under which a bool function returns `want` (True/False): for every
+    assignment of the return place, the facts established there plus, for a non-constant value,
+    the literals implied by that value having the wanted truth"""
+    fa = cx.fa(body)
+    out = []
+    for loc, kind, node in body.defs.get(0, []):
+        if kind != "assign":
+            continue
+        e = body.rvalue_expr(node["rv"])
+        alts = fa.at(loc) or []
+        if e[0] == "const" and e[2] == "bool":
+            if (e[1] == "true") == want:
+                out.extend((loc, a) for a in alts)
+            continue
+        lits = fa.bool_lits(e, want)
+        out.extend((loc, frozenset(a | set(lits))) for a in alts)
+    return out
